@@ -11,6 +11,7 @@ import (
 	"github.com/ethereum/go-ethereum/accounts/abi"
 	"github.com/ethereum/go-ethereum/crypto"
 	layer "github.com/tellor-io/layer/types"
+	"github.com/tellor-io/layer/utils"
 	"github.com/tellor-io/layer/x/bridge/types"
 
 	"cosmossdk.io/collections"
@@ -165,7 +166,7 @@ func (k Keeper) DecodeDepositReportValue(ctx context.Context, reportValue string
 		{Type: Uint256Type},
 	}
 	// decode report value
-	reportValueBytes, err := hex.DecodeString(reportValue)
+	reportValueBytes, err := hex.DecodeString(utils.Remove0xPrefix(reportValue))
 	if err != nil {
 		k.Logger(ctx).Error("@decodeDepositReportValue", "error", fmt.Errorf("failed to decode report value, err: %w", err))
 		return nil, sdk.Coins{}, sdk.Coins{}, err
